@@ -63,7 +63,22 @@ IterMuts == {"none", "delete_first", "delete_middle", "delete_last", "delete_all
 TextMakers == {"eval", "ieval", "Function", "eval_in_fn", "eval_in_eval", "JSON.parse", "eval_via_var", "eval_call"}
 TextValues == {"({a:1})", "[1,2]", "null", "undefined", "({a:[1,{b:2}]})", "[[1],[2]]", "(function(){ return 1 })", "/a/g", "'s'", "1.5", "[]", "({})",
                "new Error('x')", "[null, undefined]"}
+\* rxu    : match results under the u flag on subjects with astral characters (index / lastIndex arithmetic in two units)
+\* rebind : a host function or a built-in stored under a global name the engine itself looks up (error constructors, Array,
+\*          Object, ...), then an operation that makes the engine use that name: the host function must not run (the script never
+\*          calls it), and what the script catches or gets is a JavaScript value
+RxuPats == {"b", ".", "(.)b?", "[^a]", "\\u{1F600}", "(?:)", "b|(c)"}
+RxuFlags == {"u", "gu", "yu", "giu", "gmu"}
+RxuSubjs == {"\\u{1F600}b", "a\\u{1F600}b\\u{1F600}", "\\u{1F600}", "\\u{1F600}\\u{1F600}bb"}
+RxuApis == {"exec", "exec_twice", "match", "replace_fn", "search", "split", "test_lastIndex", "matchdetached"}
+RebindNames == {"TypeError", "RangeError", "ReferenceError", "SyntaxError", "Error", "Array", "Object", "String", "Number", "RegExp", "Function",
+                "Boolean", "JSON", "Math", "eval", "parseInt", "isNaN", "console"}
+RebindValues == {"hostfn", "hostnone", "console.log", "Math.abs", "hostfn.bind(null)"}
+RebindTriggers == {"null_read", "undeclared", "repeat_neg", "bad_regex", "call_number", "new_number", "bad_length", "json_bad", "array_literal",
+                   "object_literal", "string_method", "number_method", "regex_literal", "function_literal", "for_in", "plus_string"}
 Probes == [fam : {"cb"}, api : CbApis, recv : CbRecvs, ret : CbRets]
+          \cup [fam : {"rxu"}, api : RxuApis, pat : RxuPats, fl : RxuFlags, subj : RxuSubjs]
+          \cup [fam : {"rebind"}, name : RebindNames, val : RebindValues, trig : RebindTriggers]
           \cup [fam : {"iter"}, loop : IterLoops, mut : IterMuts]
           \cup [fam : {"text"}, mk : TextMakers, val : TextValues]
           \cup [fam : {"rxcb"}, api : RxCbApis, pat : RxPats, subj : RxSubjs]
@@ -73,7 +88,11 @@ Probes == [fam : {"cb"}, api : CbApis, recv : CbRecvs, ret : CbRets]
           \cup [fam : {"none"}, use : NoneUses]
           \cup [fam : {"json"}, use : JsonUses]
 ProbePick(q) == \/ Tier # "quick"
-                \/ q.fam \notin {"cb", "rxcb", "rxres"}
+                \/ q.fam \notin {"cb", "rxcb", "rxres", "rxu", "rebind"}
+                \/ q.fam = "rxu" /\ (q.pat \in {"b", "(.)b?"} \/ q.fl = "gu") /\ q.subj \in {"\\u{1F600}b", "a\\u{1F600}b\\u{1F600}"}
+                \/ q.fam = "rebind" /\ (q.val \in {"hostfn", "hostnone"} \/ q.trig \in {"null_read", "repeat_neg"})
+                                     /\ (q.name \in {"TypeError", "RangeError", "ReferenceError", "SyntaxError", "Error", "Array", "Object"}
+                                         \/ q.trig \in {"null_read", "array_literal", "string_method"})
                 \/ q.fam = "cb" /\ (q.ret = "undefined" \/ q.recv = "[1,2]")
                 \/ q.fam \in {"rxcb", "rxres"} /\ (q.subj \in {"ab", "xz"} \/ q.pat \in {"(a)|(b)", "x(y)?z"})
 
